@@ -35,7 +35,8 @@ BadSplit(e) ==
       fits == Len(u) <= MaxOf(kind)
       long == \A i \in 1..Len(parts) : Len(parts[i]) >= 6
   IN
-  IF e.err THEN T(greedy <= MaxParts, "C06.err")
+  \* refused although it fits: C06 in general; a text of 2..255 parts refused is also the part limit applied wrongly (C07)
+  IF e.err THEN T(greedy <= MaxParts, "C06.err") \cup T(greedy <= MaxParts /\ ~fits /\ can, "C07.refused_within_limit")
   ELSE
        T(e.actual # expActual, "C06.coding")
   \* (accepted with at most 255 parts because characters were cut is the recorded consequence of C14.cut;
